@@ -68,14 +68,29 @@ def main():
     write = "--write" in sys.argv
     if write:
         sys.argv.remove("--write")
+    only = None  # --only PREFIX: seeds whose id starts with PREFIX; with --write the results are merged into the record
+    if "--only" in sys.argv:
+        k = sys.argv.index("--only")
+        only = sys.argv[k + 1]
+        del sys.argv[k : k + 2]
     ids = sys.argv[1:] or [None]
     res = []
     for pid in ids:
-        res.extend(run_all(pid))
+        if only is None:
+            res.extend(run_all(pid))
+        else:
+            seeds = [sd for sd in seeds_for(pid) if sd[0]["id"].startswith(only)]
+            with ThreadPoolExecutor(max_workers=4) as ex:
+                res.extend(ex.map(lambda sd: run_seed(*sd), seeds))
     for r in res:
         print(f"SELFTEST {r['status']:14s} {r['seed']:14s} {r['property']}  {r['detail'][:200]}")
     if write:  # record of the last full self-test (read by tools/seed_table.py)
-        (VERIF / "seeded" / "selftest_last.json").write_text(json.dumps(res, indent=1))
+        rec = VERIF / "seeded" / "selftest_last.json"
+        if only is not None and rec.exists():
+            old = [r for r in json.loads(rec.read_text()) if not r["seed"].startswith(only)]
+            rec.write_text(json.dumps(old + res, indent=1))
+        else:
+            rec.write_text(json.dumps(res, indent=1))
     missed = [r for r in res if r["status"] in ("MISSED", "FALSE-ALARM")]
     print(f"{len(res)} runs: {sum(r['status'] == 'detected' for r in res)} breaking changes detected, {sum(r['status'] == 'clean' for r in res)} harmless refactorings clean, {len(missed)} missed or false alarms, {sum(r['status'] == 'not-applicable' for r in res)} not applicable")
     return 1 if missed else 0
